@@ -15,7 +15,7 @@ from constantly import NamedConstant
 
 from twisted.python._tzhelper import FixedOffsetTimeZone
 from twisted.python.failure import Failure
-from twisted.python.reflect import safe_repr
+from twisted.python.reflect import safe_repr, safe_str
 from ._flatten import aFormatter, flatFormat
 from ._interfaces import LogEvent
 
@@ -319,8 +319,12 @@ def _formatTraceback(failure: Failure) -> str:
     """
     try:
         traceback = failure.getTraceback()
+        if not isinstance(traceback, str):
+            raise TypeError(
+                "getTraceback returned {}, not str".format(type(traceback).__name__)
+            )
     except BaseException as e:
-        traceback = "(UNABLE TO OBTAIN TRACEBACK FROM EVENT):" + str(e)
+        traceback = "(UNABLE TO OBTAIN TRACEBACK FROM EVENT):" + safe_str(e)
     return traceback
 
 
@@ -336,22 +340,22 @@ def _formatSystem(event: LogEvent) -> str:
     @return: A formatted string representing the "log_system" key.
     """
     system = cast(Optional[str], event.get("log_system", None))
-    if system is None:
-        level = cast(Optional[NamedConstant], event.get("log_level", None))
-        if level is None:
-            levelName = "-"
-        else:
-            levelName = level.name
+    try:
+        if system is None:
+            level = cast(Optional[NamedConstant], event.get("log_level", None))
+            if level is None:
+                levelName = "-"
+            else:
+                levelName = level.name
 
-        system = "{namespace}#{level}".format(
-            namespace=cast(str, event.get("log_namespace", "-")),
-            level=levelName,
-        )
-    else:
-        try:
+            system = "{namespace}#{level}".format(
+                namespace=cast(str, event.get("log_namespace", "-")),
+                level=levelName,
+            )
+        else:
             system = str(system)
-        except Exception:
-            system = "UNFORMATTABLE"
+    except BaseException:
+        system = "UNFORMATTABLE"
     return system
 
 
@@ -408,7 +412,14 @@ def eventAsText(
 
     timeStamp = ""
     if includeTimestamp:
-        timeStamp = "".join([formatTime(cast(float, event.get("log_time", None))), " "])
+        try:
+            timeStamp = "".join(
+                [formatTime(cast(float, event.get("log_time", None))), " "]
+            )
+        except BaseException:
+            # An unusable "log_time" (or time formatter) must not lose the
+            # message; "-" is what formatTime gives for a missing time.
+            timeStamp = "- "
 
     system = ""
     if includeSystem:
